@@ -889,8 +889,12 @@ func (p *Parser) parseForEach() ast.Expression {
 		return nil
 	}
 
-	// parse the block
-	p.nextToken()
+	// parse the block, which must come next.
+	if !p.expectPeek(token.LBRACE) {
+		msg := fmt.Sprintf("expected { but got %s around %s", p.curToken.Literal, p.curToken.Position())
+		p.errors = append(p.errors, msg)
+		return nil
+	}
 	expression.Body = p.parseBlockStatement()
 
 	return expression
